@@ -16,13 +16,20 @@ def probe_jobs(tier, seed):
     return [Job("framework.props.proberun", "run_probe",
                 {"seed": seed * 467 + k, "count": 120 if q else 2500, "deadline_s": 60 if q else 600},
                 mode="jit", timeout=300 if q else 1500, tag="probe:%d" % k, stall_s=120)
-            for k in range(2 if q else 4)]
+            for k in range(2 if q else 4)] + big_jobs(tier, seed)
+
+
+def big_jobs(tier, seed):
+    from framework.props import bigrun
+
+    return bigrun.jobs("C10", tier, seed + 6, calg="shaving")
 
 
 def _post(rep, extra):
-    from framework.props import proberun
+    from framework.props import bigrun, proberun
 
-    proberun.aggregate(rep, extra)
+    proberun.aggregate(rep, [j for j in extra if j.func == "run_probe"])
+    bigrun.aggregate(rep, [j for j in extra if j.func == "run_big"])
 
 
 def main(tier, seed):
@@ -40,7 +47,8 @@ def main(tier, seed):
                    ("shaving.bc_references", 2000, "BC reference runs"),
                    ("shaving.solution_sets_checked", 2000, "solution preservation"),
                    ("branch.shaves_audited", 50, "announcement of shaved bounds"),
-                   ("probe.shaving_calls_monitored", 300, "compiled in-engine probe (plane B)")],
+                   ("probe.shaving_calls_monitored", 300, "compiled in-engine probe (plane B)"),
+                   ("big.enumerations_completed", 100, "shaving on large planted models")],
             assumptions=["C02/C03 failures with the shaving algorithm are reported here as C10 (solver-level clause)"])
     finally:
         gen.CALGS = saved
